@@ -547,6 +547,10 @@ func ruleP04Steps(p *Prog, r *Report) {
 	}
 	optField := func(v ssa.Value) string {
 		tag, _ := fieldTagOfLoad(v)
+		if tag == "" {
+			// handed to a step constructor as a parameter and captured there
+			tag, _ = fieldTagOfLoad(deref(v))
+		}
 		return tag
 	}
 	summaryCall := func(v ssa.Value) bool {
@@ -876,21 +880,28 @@ func ruleP04Reject(p *Prog, r *Report) {
 				continue
 			}
 			k, isK := constInt(b.Y)
-			if !isK || k != -1 {
+			if !isK {
+				continue
+			}
+			// "no open range" is index -1, however the comparison is spelled
+			var absentOnTrue, known bool
+			switch {
+			case (b.Op == token.EQL && k == -1) || (b.Op == token.LSS && k == 0) || (b.Op == token.LEQ && k == -1):
+				absentOnTrue, known = true, true
+			case (b.Op == token.NEQ && k == -1) || (b.Op == token.GEQ && k == 0) || (b.Op == token.GTR && k == -1):
+				absentOnTrue, known = false, true
+			}
+			if !known {
 				continue
 			}
 			for _, r2 := range *b.Referrers() {
 				if i2, ok := r2.(*ssa.If); ok {
 					iff = i2
-					isEq := b.Op == token.EQL
-					// reject edge: idx == -1 when wantNeg, idx != -1 otherwise
-					if isEq == s.wantNeg {
+					// reject edge: "absent" when wantNeg, "present" otherwise
+					if absentOnTrue == s.wantNeg {
 						rejectSucc = 0
 					} else {
 						rejectSucc = 1
-					}
-					if b.Op != token.EQL && b.Op != token.NEQ {
-						iff = nil
 					}
 				}
 			}
